@@ -3,6 +3,7 @@ package main
 import (
 	"bufio"
 	"fmt"
+	"strings"
 
 	"github.com/cockroachdb/redact"
 )
@@ -119,5 +120,13 @@ func genMarkers(w *bufio.Writer, rng *prng, maxLen, nRandom int) {
 	}
 	for i := 0; i < nRandom; i++ {
 		emitMarkers(w, randPayload(rng, 1+rng.intn(14)))
+	}
+	// long envelopes and long safe stretches (1-, 2- and 3-byte runes; line feeds inside)
+	for _, n := range []int{255, 256, 999, 1000, 1001, 1002, 4096, 5000} {
+		for _, u := range []string{"s", "é", "日", "s\n"} {
+			body := strings.Repeat(u, n)
+			emitMarkers(w, "a‹"+body+"›b")
+			emitMarkers(w, "‹x›"+body+"‹"+body+"›‹›")
+		}
 	}
 }
